@@ -21,7 +21,7 @@ RULE = (
 )
 ASSUMPTIONS = ["derivatives are compared at 2e-6 relative plus the rounding noise of the difference quotient (eps*cond*|value|/h)"]
 TIMEOUT = {"quick": 300, "thorough": 1800}
-REQUIRED = {"post:gradient": 100, "post:spatial_derivatives": 100, "cases:nonconstant_mean": 40, "cases:batched_d>=2": 30, "judged": 100, "mean_derivative_checks": 200, "variance_derivative_checks": 100}
+REQUIRED = {"post:gradient": 100, "post:spatial_derivatives": 100, "cases:nonconstant_mean": 40, "cases:batched_d>=2": 30, "judged": 100, "mean_derivative_checks": 200, "variance_derivative_checks": 100, "cases:after_hyperparameter_update": 40}
 
 
 def jobs(tier, seed):
@@ -73,6 +73,29 @@ def run_job(job, rec):
         a2 = np.exp(2 * tc[0])
         L = np.exp(tc[1:])
         Kxx = Kxx0 + np.eye(n) * a2 * 1e-12  # documented jitter
+
+        # history: the first round of derivative calls is made with one set of hyper-parameters, then (sometimes)
+        # the same object is updated and everything below is judged at the new values
+        if rng.random() < 0.5:
+            q0 = x[:2] + 0.37 * L
+            guarded(gp.spatial_derivatives, q0)
+            guarded(gp.gradient, q0)
+            tc = tc + rng.uniform(0.15, 0.5, size=tc.size) * rng.choice([-1, 1], size=tc.size)
+            tm = tm * (1 + 0.2 * rng.normal(size=tm.size))
+            Kxx0 = R.data_cov(spec, x, tc) + S
+            cond = np.linalg.cond(Kxx0)
+            if not np.isfinite(cond) or cond > 1e8:
+                rec.count("skipped_ill_conditioned")
+                continue
+            r = guarded(gp.set_hyperparameters, np.concatenate([tm, tc]))
+            if isinstance(r, Raised):
+                rec.violation("raised", f"set_hyperparameters raised {r!r}", rec.context)
+                continue
+            rec.count("cases:after_hyperparameter_update")
+            rec.context = {**rec.context, "after": "set_hyperparameters"}
+            a2 = np.exp(2 * tc[0])
+            L = np.exp(tc[1:])
+            Kxx = Kxx0 + np.eye(n) * a2 * 1e-12
 
         M = int(rng.choice([1, 1, 2, 3, 5]))
         q = []
